@@ -16,6 +16,7 @@ ops (fields separated by `|`, text as hex of UTF-8, `~` = empty list / None):
         → `hit:<pattern>:<param_keys>:<values>:<hook positions>` | `miss:<values>:<hook positions>:<partial>`
   `W|verb|path|env`                      request through `Ombott._handle` → as `R`
   `D|k|methods`                          `remove_method(methods)` on the route returned by op `k` → `ok`
+  `N`                                    place holder (keeps op positions) → `skip`
 
 `env` = `fid:text=val:n:sel;…` the real handler's answer for (filter, remaining text); `val` is
 `s.<hex>` (a `str`) or `c.<hex>` (converted value, canonical text); `fid:text=~` = rejected.
@@ -139,6 +140,7 @@ def stepOp (st : St) (idx : Nat) (op : String) : Option (St × String) :=
     let (_, id) ← st.ret.find? (·.1 == k)
     let r ← st.R.obj? id
     pure ({ st with R := st.R.setObj id (r.removeMethod (unhexStrList methods)) }, "ok")
+  | ["N"] => pure (st, "skip")
   | _ => none
 
 def runOps : St → Nat → List String → Option (List String)
